@@ -116,6 +116,96 @@ func c07Universes(name string, lvl int, dirty func(string) bool) [][]string {
 		}
 		ws = append(ws, pick(mid))
 	}
+	// W4: distinct spellings - one member per "shape signature" (prefix class, punctuation set,
+	// upper case, long digit run), up to six
+	sig := func(x string) string {
+		k := ""
+		switch {
+		case x == "":
+		case x[0] >= '0' && x[0] <= '9':
+			k = "d"
+		default:
+			k = string(x[0])
+		}
+		seen := map[rune]bool{}
+		run, long, upper := 0, false, false
+		for _, c := range x {
+			switch {
+			case c >= '0' && c <= '9':
+				run++
+				if run >= 10 {
+					long = true
+				}
+				continue
+			case c >= 'A' && c <= 'Z':
+				upper = true
+			case c >= 'a' && c <= 'z':
+			default:
+				seen[c] = true
+			}
+			run = 0
+		}
+		var ps []string
+		for c := range seen {
+			ps = append(ps, string(c))
+		}
+		sort.Strings(ps)
+		return fmt.Sprintf("%s|%s|%v|%v", k, strings.Join(ps, ""), upper, long)
+	}
+	{
+		bySig := map[string]int{}
+		var sigs []string
+		for i, x := range strs {
+			g := sig(x)
+			if _, ok := bySig[g]; !ok {
+				bySig[g] = i
+				sigs = append(sigs, g)
+			}
+		}
+		sort.Strings(sigs)
+		var w4 []string
+		usedClass := map[int]bool{}
+		// prefer rarer shapes: iterate signatures from the end of the sorted list (letters, prefixes) first
+		for k := len(sigs) - 1; k >= 0 && len(w4) < 6; k-- {
+			i := bySig[sigs[k]]
+			if !usedClass[cls[i]] || len(sigs) <= 6 {
+				usedClass[cls[i]] = true
+				w4 = append(w4, strs[i])
+			}
+		}
+		if len(w4) >= 4 {
+			ws = append(ws, w4)
+		}
+	}
+	// W5: six members of the most populated numeric core (same release, different markers)
+	{
+		coreOf := func(x string) string {
+			x = strings.TrimLeft(x, "v=")
+			for i, c := range x {
+				if !(c >= '0' && c <= '9') && c != '.' {
+					return strings.TrimRight(x[:i], ".")
+				}
+			}
+			return x
+		}
+		buckets := map[string][]int{}
+		for i, x := range strs {
+			buckets[coreOf(x)] = append(buckets[coreOf(x)], i)
+		}
+		best := ""
+		for k, b := range buckets {
+			if len(b) > len(buckets[best]) || (len(b) == len(buckets[best]) && k < best) {
+				best = k
+			}
+		}
+		if b := buckets[best]; len(b) >= 4 {
+			var w5 []string
+			for _, i := range stride(b, 6) {
+				w5 = append(w5, strs[i])
+			}
+			ws = append(ws, w5)
+		}
+	}
 	if lvl > 0 && nc >= 12 {
 		var lo, hi []int
 		for k := 0; k < 6; k++ {
@@ -279,7 +369,7 @@ func c07Unit(name string, tier string) core.Unit {
 		for wi, w := range ws {
 			r.AddScope(name, "universes", 1)
 			for L := 1; L <= maxLen; L++ {
-				if wi >= 3 && L == maxLen {
+				if wi >= 3 && L == maxLen && len(w) > 5 {
 					continue
 				}
 				idx := make([]int, L)
@@ -475,7 +565,7 @@ func init() {
 				"distinct_nontrivial":           r.Counters["nontrivial"],
 			}
 		},
-		Rule:        "per ecosystem 3 (quick) / 6 (thorough) universes W of 6 versions derived from C01's universe (six classes spread over the order; Compare-equal textual variants plus singles; six neighbouring classes; thorough: lowest six, highest six, one with an exact duplicate): EVERY list of length 1..5 (quick) / 1..6 (thorough) over W - i.e. every permutation of every multiset - is sorted through the real CLI `sort` (overlay-built server around run()) and through the README idiom slices.SortFunc; plus deterministic families of length 13, 33, 64 (sorted, reversed, all rotations, organ-pipe, all-equal, two-value blocks); plus every list of length <= 3 with each position replaced by an invalid string. distinct_nontrivial = distinct multisets whose sorted output has more than one class.",
+		Rule:        "per ecosystem 5 (quick) / 8 (thorough) universes W of up to 6 versions derived from C01's universe (six classes spread over the order; Compare-equal textual variants plus singles; six neighbouring classes; one member per distinct spelling shape - prefixes, punctuation, upper case, long digit runs; six members of the most populated numeric core, i.e. pre/post/dev spellings of one release; thorough: lowest six, highest six, one with an exact duplicate): EVERY list of length 1..5 (quick) / 1..6 (thorough) over W - i.e. every permutation of every multiset - is sorted through the real CLI `sort` (overlay-built server around run()) and through the README idiom slices.SortFunc; plus deterministic families of length 13, 33, 64 (sorted, reversed, all rotations, organ-pipe, all-equal, two-value blocks); plus every list of length <= 3 with each position replaced by an invalid string. distinct_nontrivial = distinct multisets whose sorted output has more than one class.",
 		Assumptions: []string{"versions in known-intransitive classes (C01 known findings) and alpm versions with '-' are not used as sort inputs", "'all permutations' beyond length 6 is replaced by the deterministic families"},
 	})
 }
